@@ -36,6 +36,7 @@ var (
 	errSrcMAC        = errors.New("invalid source MAC")
 	errSrcInterface  = errors.New("invalid source interface")
 	errRateLimit     = errors.New("invalid ratelimit")
+	errPortRange     = errors.New("invalid port range")
 	errARPCacheStdin = errors.New("ARP cache is expected from file or stdin pipe")
 	errIPFlags       = errors.New("invalid ip flags")
 	errNoDstIP       = errors.New("requires one ip subnet argument or file with ip/port pairs")
@@ -522,6 +523,9 @@ func newStdinOpener() func() (io.ReadCloser, error) {
 
 func parsePortRange(portsRange string) (r *scan.PortRange, err error) {
 	ports := strings.Split(portsRange, "-")
+	if len(ports) > 2 {
+		return nil, errPortRange
+	}
 	var port uint64
 	if port, err = strconv.ParseUint(ports[0], 10, 16); err != nil {
 		return
